@@ -15,14 +15,15 @@
 
    A case with a seventh header field of 1 is run here ([run_any] dispatches);
    the harness then prints one record [11; which; y; nsp; span*; cache] per row
-   after the records of [Case.enc_obs].  Rune mode, span buffer.
-
-   The width oracle is [uwc] of Model/Uniseg.v - the model of uniseg.StringWidth over the tables generated from the
-   library source, tied code point by code point by the uniseg engine - and not the per-case table of the cell-level
-   check: raw invalid bytes written in separate operations can recombine into a character that occurs nowhere in the
-   input (known finding D13), and the table, computed from the input, does not list it. *)
+   after the records of [Case.enc_obs].  Span buffer.  Header mode 0 (TextReadModeRune)
+   runs the model of SpanScreen.v at the width oracle [uwc] of Model/Uniseg.v (the model of uniseg.StringWidth over
+   the tables generated from the library source, tied code point by code point by the uniseg engine; not the per-case
+   table of the cell-level check: raw invalid bytes written in separate operations can recombine into a character that
+   occurs nowhere in the input - known finding D13 - and the table, computed from the input, does not list it); header mode 1
+   (TextReadModeGrapheme) runs the stepper-parametric model of GSpan.v at the grapheme
+   stepper (the uniseg model), with the reader state as record 10. *)
 From Coq Require Import List ZArith Bool.
-From Termemu Require Import Base Style Screen Kbd Parser Term Span SpanScreen Case SpanCase Uniseg Grapheme.
+From Termemu Require Import Base Style Screen Kbd Parser Term Span SpanScreen Case SpanCase Uniseg Grapheme GSpan.
 Import ListNotations.
 Open Scope Z_scope.
 
@@ -65,9 +66,39 @@ Fixpoint s_run_ops (st : scst) (lines : list (list Z)) : list (list Z) :=
    and the loop computes the maxWidth of its first read from the resized buffer *)
 Definition s_start (wc : Z -> Z) (w h : Z) : sterm := s_clear_io (s_resize wc w h (s_init_term 80 14)).
 
+(* ---- grapheme mode: the same, over Model/GSpan.v at the grapheme stepper ---- *)
+Definition g_enc_sobs (opidx : Z) (t : sterm) (rs : rstate) (pending : Z) : list (list Z) :=
+  enc_obs opidx (gm_abs_sterm t) pending ++ [enc_rs rs]
+    ++ enc_srows 0 0 (zlines (smain t)) ++ enc_srows 1 0 (zlines (salt t)).
+
+Record gscst := mkGscst { gc_t : sterm; gc_rs : rstate; gc_pend : list Z; gc_mw : option Z; gc_idx : Z }.
+
+Definition g_run_op (st : gscst) (line : list Z) : gscst * list (list Z) :=
+  let same := (st, g_enc_sobs (gc_idx st) (gc_t st) (gc_rs st) (zlen (gc_pend st))) in
+  let go (o : hop) :=
+    let '(t', rs', pend', mw') := gm_hstep (s_clear_io (gc_t st), gc_rs st, gc_pend st, gc_mw st) o in
+    (mkGscst t' rs' pend' mw' (gc_idx st + 1), g_enc_sobs (gc_idx st) t' rs' (zlen pend')) in
+  match line with
+  | 110 :: bs => if s_crashed (gc_t st) then same else go (HFeed bs)
+  | 111 :: w :: h :: _ => if s_crashed (gc_t st) then same else go (HResize w h)
+  | _ => (st, [])
+  end.
+
+Fixpoint g_run_ops (st : gscst) (lines : list (list Z)) : list (list Z) :=
+  match lines with
+  | [] => []
+  | l :: rest => let '(st', o) := g_run_op st l in o ++ g_run_ops st' rest
+  end.
+
+Definition g_start (w h : Z) : sterm := s_clear_io (gm_resize w h (s_init_term 80 14)).
+
 Definition run_scase (lines : list (list Z)) : list (list Z) :=
   match lines with
-  | (100 :: _ :: _ :: w :: h :: _) :: (101 :: tbl) :: rest =>
+  | (100 :: mode :: _ :: w :: h :: _) :: (101 :: tbl) :: rest =>
+      if mode =? 1 then
+        let t0 := g_start w h in
+        g_run_ops (mkGscst t0 rs0 [] (Some (max_width (s_active t0))) 0) rest
+      else
       let t0 := s_start uwc w h in
       s_run_ops (mkScst t0 [] (Some (max_width (s_active t0))) tbl 0) rest
   | _ => [[0]]
